@@ -26,6 +26,9 @@
 // held (decoded packets kept and judged again after later reads, plain and bufio readers), shared (sender's scratch
 // buffers), forgedcrc (CRC-32 forced to 0 / ffffffff / 1 …, cross-decoding with an independent encoder and decoder),
 // cryptors (custom BlockCryptor implementations), wordthr (word-extreme thresholds). All in the normal tiers.
+//
+// Fourth round: legs4.go — fill (writer kinds and every fill state of an unflushed *bufio.Writer relative to header and
+// header+4*refs; quick), bigzero (bodies of 256 MiB + 1 from thorough on, 512 MiB + 1 / 1 GiB + 1 with -search, memory permitting).
 package main
 
 import (
